@@ -1,4 +1,5 @@
 import NrDaemon.Lemmas.Frame
+import NrDaemon.Gen.Skeleton
 /-!
   C09 — socket framing is lossless, bounded and self-delineating.
   `isLegacyAgent`, `maxMessageSize` (2 MiB) and `msgHeaderSize` are regenerated from listener.go on every run.
@@ -203,3 +204,50 @@ theorem C09_truncation_no_partial (msgs : List (Nat × Bytes)) (h : WellFormed m
         unfold parseAll
         rw [parse1_frame m.1 m.2 _ hm.1 hm.2]
         simp only [hp, List.take_succ_cons]
+
+/-- `ReadMessage` and `MessageWriter.Write` today: header with `io.ReadFull`, EOF passed on only when nothing was read, the
+legacy check, the size cap BEFORE the body is allocated, the body with `io.ReadFull`; the writer sends the header, then the
+body only if the header went out — what `Model/Frame.lean` transcribes -/
+def reviewedReadMessage : List String := [
+  "header := <*ast.CompositeLit>",
+  "_, err := io.ReadFull(…)",
+  "if nil!=err {",
+  "if err==io.EOF {",
+  "return <*ast.CompositeLit>, err",
+  "}",
+  "return <*ast.CompositeLit>, fmt.Errorf(…)",
+  "}",
+  "if isLegacyAgent(<*ast.SliceExpr>) {",
+  "return <*ast.CompositeLit>, errLegacyAgent",
+  "}",
+  "msgType := MessageType(…)",
+  "dataSize := byteOrder.Uint32(…)",
+  "if dataSize>maxMessageSize {",
+  "if msgType!=MessageTypeBinary {",
+  "}",
+  "return <*ast.CompositeLit>, fmt.Errorf(…)",
+  "}",
+  "msg := make(…)",
+  "_, err = io.ReadFull(…)",
+  "if nil!=err {",
+  "return <*ast.CompositeLit>, fmt.Errorf(…)",
+  "}",
+  "return <*ast.CompositeLit>, nil"
+]
+def reviewedMessageWrite : List String := [
+  "nw, err := mw.writeHeader(…)",
+  "if nw>0 {",
+  "n += nw",
+  "}",
+  "if err==nil&&len(p)>0 {",
+  "nw, err = mw.W.Write(…)",
+  "if nw>0 {",
+  "n += nw",
+  "}",
+  "}",
+  "return"
+]
+
+/-- **C09 (tie: the frame model transcribes the code).** -/
+theorem C09_framing_source_tied :
+    Gen.Skeleton.readMessage = reviewedReadMessage ∧ Gen.Skeleton.messageWrite = reviewedMessageWrite := ⟨rfl, rfl⟩
